@@ -257,9 +257,11 @@ fn enumerate(eng: &Engine, p: &C07) {
                 run_block(&bits, b, &st);
             });
             let centres = interesting_centres();
-            centres.par_iter().enumerate().for_each(|(i, c)| {
+            centres.par_iter().for_each(|c| {
                 let bits: Vec<u32> = (0..512u32).map(|k| c.wrapping_add(k).wrapping_sub(256)).collect();
-                run_block(&bits, i as u64, &st);
+                // both representations: block number parity selects flat (even) or 3-D (odd)
+                run_block(&bits, 0, &st);
+                run_block(&bits, 1, &st);
             });
         }
     }
